@@ -207,6 +207,9 @@ fn artefacts(ctx: &Ctx) -> (String, String) {
 		if prop == Prop::C04 && ctx.replay.as_ref().map_or(true, |r| r.workload == "foreign-spki") {
 			c04_foreign_spki(ctx, &pool);
 		}
+		if prop == Prop::C04 && ctx.replay.as_ref().map_or(true, |r| r.workload == "algorithms-by-oid") {
+			c04_algorithms_by_oid(ctx);
+		}
 	}
 	if matches!(prop, Prop::C01 | Prop::C04 | Prop::C05 | Prop::C07) && wants("csr") {
 		csrs::run(ctx, prop, &pool, if prop == Prop::C07 { ctx.scale(12_000, 250_000) } else { ctx.scale(3_000, 80_000) });
@@ -764,6 +767,103 @@ fn c04_foreign_spki(ctx: &Ctx, pool: &[crate::keys::PoolKey]) {
 						ctx.violation(&format!("c04:foreign-spki:{}", certs::classify(&e)), &case, &label, &e);
 					}
 				},
+			}
+		}
+	}
+}
+
+/// C04: the algorithms a caller can get hold of are not only the exported statics: whatever
+/// `SignatureAlgorithm::from_oid` hands out for a well-known signature OID can be used for keys, and
+/// then its AlgorithmIdentifier (parameters included) is part of every emitted structure.
+#[cfg(all(feature = "crypto", feature = "ossl"))]
+fn c04_algorithms_by_oid(ctx: &Ctx) {
+	use crate::ctx::CaseId;
+	let oids: [(&str, &[u64]); 14] = [
+		("sha256WithRSAEncryption", &[1, 2, 840, 113549, 1, 1, 11]),
+		("sha384WithRSAEncryption", &[1, 2, 840, 113549, 1, 1, 12]),
+		("sha512WithRSAEncryption", &[1, 2, 840, 113549, 1, 1, 13]),
+		("id-RSASSA-PSS", &[1, 2, 840, 113549, 1, 1, 10]),
+		("sha1WithRSAEncryption", &[1, 2, 840, 113549, 1, 1, 5]),
+		("sha224WithRSAEncryption", &[1, 2, 840, 113549, 1, 1, 14]),
+		("rsaEncryption", &[1, 2, 840, 113549, 1, 1, 1]),
+		("ecdsa-with-SHA1", &[1, 2, 840, 10045, 4, 1]),
+		("ecdsa-with-SHA224", &[1, 2, 840, 10045, 4, 3, 1]),
+		("ecdsa-with-SHA256", &[1, 2, 840, 10045, 4, 3, 2]),
+		("ecdsa-with-SHA384", &[1, 2, 840, 10045, 4, 3, 3]),
+		("ecdsa-with-SHA512", &[1, 2, 840, 10045, 4, 3, 4]),
+		("id-Ed25519", &[1, 3, 101, 112]),
+		("id-Ed448", &[1, 3, 101, 113]),
+	];
+	let rsa = crate::ossl::rsa_pkcs8(2048);
+	let issuer_key = crate::any_key();
+	let mut cas = crate::spec::ParamSpec::minimal();
+	cas.is_ca = crate::spec::IsCaSpec::Ca(None);
+	let ca = match crate::guard(|| cas.to_rcgen(None).self_signed(&issuer_key)) {
+		Ok(Ok(c)) => c,
+		_ => return ctx.inconclusive("cannot make the minimal CA for algorithms-by-oid"),
+	};
+	for (i, (name, oid)) in oids.iter().enumerate() {
+		let case = CaseId::new("algorithms-by-oid", 0, i as u64);
+		if let Some(r) = &ctx.replay {
+			if r.index != i as u64 {
+				continue;
+			}
+		}
+		let alg = match crate::guard(|| rcgen::SignatureAlgorithm::from_oid(oid)) {
+			Ok(Ok(a)) => a,
+			Ok(Err(_)) => {
+				ctx.count("outcome:algorithms-by-oid:not-offered");
+				continue;
+			},
+			Err(p) => {
+				ctx.violation("c04:from_oid-panic", &case, name, &p);
+				continue;
+			},
+		};
+		ctx.count("enum:algorithms-by-oid");
+		// a key for it: generated where the back end can, otherwise an OpenSSL-made RSA key loaded for it
+		let kp = match crate::guard(|| {
+			rcgen::KeyPair::generate_for(alg).or_else(|_| rcgen::KeyPair::from_pkcs8_der_and_sign_algo(&pki_types::PrivatePkcs8KeyDer::from(rsa.clone()), alg))
+		}) {
+			Ok(Ok(k)) => k,
+			_ => {
+				ctx.count("outcome:algorithms-by-oid:no-key");
+				continue;
+			},
+		};
+		let label = format!("algorithm obtained by from_oid({}) = {:?}", name, alg);
+		let mut arts: Vec<(&str, Vec<u8>)> = vec![("public_key_der", kp.public_key_der())];
+		let r = crate::guard(|| -> Result<Vec<(&'static str, Vec<u8>)>, String> {
+			let mut v = Vec::new();
+			let mut p = rcgen::CertificateParams::default();
+			p.is_ca = rcgen::IsCa::Ca(rcgen::BasicConstraints::Unconstrained);
+			let own = p.clone().self_signed(&kp).map_err(|e| e.to_string())?;
+			v.push(("self-signed certificate", own.der().to_vec()));
+			v.push(("CSR", rcgen::CertificateParams::default().serialize_request(&kp).map_err(|e| e.to_string())?.der().to_vec()));
+			v.push(("certificate issued for the key", rcgen::CertificateParams::default().signed_by(&kp, &ca, &issuer_key).map_err(|e| e.to_string())?.der().to_vec()));
+			v.push(("certificate issued by the key", rcgen::CertificateParams::default().signed_by(&issuer_key, &own, &kp).map_err(|e| e.to_string())?.der().to_vec()));
+			let crl = rcgen::CertificateRevocationListParams {
+				this_update: time::OffsetDateTime::from_unix_timestamp(1_700_000_000).unwrap(),
+				next_update: time::OffsetDateTime::from_unix_timestamp(1_800_000_000).unwrap(),
+				crl_number: rcgen::SerialNumber::from(1u64),
+				issuing_distribution_point: None,
+				revoked_certs: vec![],
+				key_identifier_method: rcgen::KeyIdMethod::Sha256,
+			};
+			v.push(("CRL", crl.signed_by(&own, &kp).map_err(|e| e.to_string())?.der().to_vec()));
+			Ok(v)
+		});
+		match r {
+			Ok(Ok(v)) => arts.extend(v),
+			Ok(Err(e)) => ctx.violation("c04:cert-refused", &case, &label, &e),
+			Err(p) => ctx.violation("c04:cert-panic", &case, &label, &p),
+		}
+		for (what, der) in arts {
+			ctx.count("eval:c04_algorithms_by_oid_artefacts_walked");
+			let mut errs = Vec::new();
+			crate::derx::check_canonical(&der, what, &mut errs);
+			for e in errs {
+				ctx.violation(&format!("c04:by-oid:{}", certs::classify(&e)), &case, &format!("{}: {}", label, what), &e);
 			}
 		}
 	}
